@@ -175,7 +175,10 @@ impl Lexicon {
                     );
                     return Err(VibratoError::invalid_format(name, msg));
                 }
-                let feature = std::str::from_utf8(&features_bytes[..features_len - 1])?;
+                // features_len counts the terminator of the last field, except when the file
+                // ends right after the comma following the cost (an empty feature string).
+                let feature =
+                    std::str::from_utf8(&features_bytes[..features_len.saturating_sub(1)])?;
                 if surface.is_empty() {
                     eprintln!(
                         "Skipped an empty surface, {:?}",
